@@ -143,9 +143,19 @@ pub fn record(args: &[String]) {
     let mut out = Out::new(None);
     let mut rng = rng(seed, 40);
     let mut bad = 0u64;
+    let skip = arg_u64(args, "--skip", 0);
+    let progress = args.iter().any(|a| a == "--progress");
     for k in 0..n {
         let ml = if k % 40 == 39 { maxlen * 10 } else { maxlen };
         let s = lex::random_input(&mut rng, ml);
+        if k < skip {
+            continue; // already examined by an earlier (killed) process: keep the generator in step
+        }
+        if progress {
+            // announce the input before running it, so that a hang or an abort can be attributed to it
+            out.line(&json!({"at": k, "text": esc(&s)}));
+            out.flush();
+        }
         let mut lrec = lex::observe(&s);
         lrec["chars"] = string_to_cps(&s);
         let lex_ok = lrec["ok"].as_bool().unwrap();
